@@ -9,7 +9,7 @@ def declare(reg):
                  ensures={"det": "result == rendered(msg, render_headers)", "crlf": "result.endswith('\\r\\n')"}, **T,
                  note="A-EMAIL: deterministic renderer; ends with CRLF (generator._msg_as_bytes appends it when missing)")
     reg.contract("asimap/generator.py", "get_msg_size", params={"msg": "opaque:EmailMessage"}, ret="int",
-                 ensures={"size": "result == len(rendered(msg, True))"}, **T, note="C16 (a): same renderer as msg_as_bytes")
+                 ensures={"size": "result == len(rendered(msg, True))", "nonneg": "result >= 0"}, **T, note="C16 (a): same renderer as msg_as_bytes")
     reg.contract(P, "dot_stuff", params={"data": "str"}, ret="str", ensures={"spec": "result == stuffed(data)", "crlf-kept": "result.endswith('\\r\\n') == data.endswith('\\r\\n')"}, **T,
                  note="bounded tier (harness.pop3:DotStuff): unstuff(dot_stuff(d)) == d and no line of the result is a lone '.'")
     reg.specfn("rendered", "msg: opaque:EmailMessage, hdrs: bool", "str", doc="A-EMAIL: the bytes generator's rendering (uninterpreted, deterministic)")
